@@ -33,9 +33,17 @@ def _bytes_list(b):
 def _remainder_slack(cls):
     src = textwrap.dedent(inspect.getsource(cls.dataReceived))
     fn = ast.parse(src).body[0]
+    # only the line-mode branch (`else:` of `if self._authenticated:`) belongs to C06; the binary branch may
+    # compare len(self._buffer) in any way it likes
+    scope = [fn]
+    for st in fn.body:
+        if (isinstance(st, ast.If) and isinstance(st.test, ast.Attribute) and st.test.attr == '_authenticated'
+                and st.orelse):
+            scope = st.orelse
+            break
     found = []
     line_checks = 0
-    for node in ast.walk(fn):
+    for node in (n for top in scope for n in ast.walk(top)):
         if (isinstance(node, ast.Compare) and isinstance(node.left, ast.Call)
                 and isinstance(node.left.func, ast.Name) and node.left.func.id == 'len'
                 and len(node.left.args) == 1):
@@ -89,6 +97,30 @@ def _state_names(cls):
     return names
 
 
+def _cookie_constants(C):
+    """`abs(timefunc() - int(k_time)) < N` in _get_cookies; `os.urandom(N)` in _create_cookie and _step_one."""
+    def urandom_args(fn):
+        out = []
+        for node in ast.walk(ast.parse(textwrap.dedent(inspect.getsource(fn)))):
+            if (isinstance(node, ast.Call) and isinstance(node.func, ast.Attribute) and node.func.attr == 'urandom'
+                    and len(node.args) == 1 and isinstance(node.args[0], ast.Constant)
+                    and isinstance(node.args[0].value, int)):
+                out.append(node.args[0].value)
+        return out
+    exp = []
+    for node in ast.walk(ast.parse(textwrap.dedent(inspect.getsource(C._get_cookies)))):
+        if (isinstance(node, ast.Compare) and len(node.ops) == 1 and isinstance(node.left, ast.Call)
+                and isinstance(node.left.func, ast.Name) and node.left.func.id == 'abs'):
+            if not (isinstance(node.ops[0], ast.Lt) and isinstance(node.comparators[0], ast.Constant)
+                    and isinstance(node.comparators[0].value, int)):
+                raise TranslatorError('_get_cookies: expiry test has an unexpected shape: %s' % ast.dump(node))
+            exp.append(node.comparators[0].value)
+    a, b = urandom_args(C._create_cookie), urandom_args(C._step_one)
+    if len(exp) != 1 or len(a) != 1 or len(b) != 1:
+        raise TranslatorError('cookie constants: expiry %r, urandom in _create_cookie %r, in _step_one %r' % (exp, a, b))
+    return exp[0], a[0], b[0]
+
+
 def tables():
     from txdbus import authentication, protocol
     P = protocol.BasicDBusProtocol
@@ -103,6 +135,8 @@ def tables():
         raise TranslatorError('authDelimiter is not bytes')
     t['authDelimiter'] = bytes(P.authDelimiter)
     t['remainderSlack'] = _remainder_slack(P)
+    t['cookieExpiry'], t['cookieRandomBytes'], t['challengeRandomBytes'] = _cookie_constants(
+        authentication.BusCookieAuthenticator)
 
     known = {authentication.BusExternalAuthenticator: 'external',
              authentication.BusCookieAuthenticator: 'cookie',
@@ -130,7 +164,7 @@ def tables():
     t['wOk'] = one(B.stepAuth, b'OK ')
     t['wData'] = one(B.stepAuth, b'DATA ')
     t['wUnknown'] = one(B.handleAuthMessage, b'"Unknown command"')
-    t['states'] = _state_names(B)
+    t['states'] = sorted(_state_names(B))
     # reject_msg as actually computed by the constructor
     t['rejectMsg'] = B(b'').reject_msg
     return t
@@ -154,6 +188,12 @@ def emit(repo):
     o.append('def remainderSlack : Nat := %d' % t['remainderSlack'])
     o.append('/-- `BusAuthenticator.MAX_REJECTS_ALLOWED` -/')
     o.append('def maxRejects : Nat := %d' % t['MAX_REJECTS_ALLOWED'])
+    o.append('/-- `abs(timefunc() - int(k_time)) < N` in `BusCookieAuthenticator._get_cookies` -/')
+    o.append('def cookieExpiry : Nat := %d' % t['cookieExpiry'])
+    o.append('/-- `os.urandom(N)` in `_create_cookie` (the cookie) -/')
+    o.append('def cookieRandomBytes : Nat := %d' % t['cookieRandomBytes'])
+    o.append('/-- `os.urandom(N)` in `_step_one` (the challenge) -/')
+    o.append('def challengeRandomBytes : Nat := %d' % t['challengeRandomBytes'])
     o.append('')
     o.append('/-- The mechanism classes this model knows. -/')
     o.append('inductive MechKind where')
@@ -177,7 +217,7 @@ def emit(repo):
     o.append('/-- Every `NAME` with a method `BusAuthenticator._auth_NAME` (sorted). -/')
     o.append('def commands : List String := [%s]' % ', '.join('"%s"' % c for c in t['commands']))
     o.append('')
-    o.append('/-- Values assigned to `self.state`, in order of first appearance. -/')
+    o.append('/-- Values assigned to `self.state` (sorted). -/')
     o.append('def stateNames : List String := [%s]' % ', '.join('"%s"' % c for c in t['states']))
     o.append('')
     for k, doc in (('wRejected', "b'REJECTED '"), ('wErrorSp', "b'ERROR '"), ('wError', "b'ERROR'"),
